@@ -94,21 +94,23 @@ def collect_trajectories(
         obs = jnp.copy(next_obs)
         if logger is not None and "episode" in info:
             finished_reward_len_obs = [
-                (r, l, o)
-                for r, l, o, f in zip(
-                    info["episode"]["r"],
-                    info["episode"]["l"],
-                    info["final_obs"],
-                    info["_episode"],
-                    strict=True,
+                (env_idx, r, l, o)
+                for env_idx, (r, l, o, f) in enumerate(
+                    zip(
+                        info["episode"]["r"],
+                        info["episode"]["l"],
+                        info["final_obs"],
+                        info["_episode"],
+                        strict=True,
+                    )
                 )
                 if f
             ]
-            for i, (r, l, o) in enumerate(finished_reward_len_obs):
+            for env_idx, r, l, o in finished_reward_len_obs:
                 global_step += int(l)
                 logger.record_stat("return", float(r), step=global_step)
                 logger.start_new_episode()
-                obs = obs.at[i].set(o)
+                obs = obs.at[env_idx].set(o)
 
         next_value = critic(obs).flatten()
         terminated_arr.append(terminated[jnp.newaxis])
